@@ -335,7 +335,7 @@ impl<S: Read> Master<S> {
     ) -> Result<()> {
         let mut in_file_index: u64 = 0;
         loop {
-            let started = reader.where_am_i();
+            let started = reader.value_boundary();
             match reader.next_json_value() {
                 Ok(Some(val)) => {
                     if self.cli.only_objects_and_arrays {
@@ -346,7 +346,7 @@ impl<S: Read> Master<S> {
                             }
                         }
                     }
-                    let ended = reader.where_am_i();
+                    let ended = reader.value_boundary();
                     let context = Context::new_with_input(
                         val,
                         started,
